@@ -7,6 +7,7 @@ R6 entry-point pairing; R7 the load loop restores op, parent and metadata of eac
 from __future__ import annotations
 
 import ast
+import copy
 
 from .. import codec
 from ..cfg import CFG, EXIT
@@ -421,6 +422,27 @@ def r4_r5_r7_load(ctx, R4="C02.R4", R5="C02.R5", R7="C02.R7") -> None:
     closures = {n.name for n in ast.walk(fn_o) if isinstance(n, ast.FunctionDef) and n is not fn_o}
     fn = ctx.cfn(f"{BASE}.Hugr._from_serial", inline=closures, subst=False)
     sname = fn.args.args[1].arg
+    # locals of the function bound once, at its top level, to something that only reads the document (`meta = serial.metadata`,
+    # `n = len(meta) if meta else 0`): the document is not written while loading, so inside the loops they are what they were bound to
+    from .. import norm as _norm
+    fn = copy.deepcopy(fn)
+    stable = {}
+    counts = {}
+    for n in ast.walk(fn):
+        if isinstance(n, ast.Name) and isinstance(n.ctx, (ast.Store, ast.Del)):
+            counts[n.id] = counts.get(n.id, 0) + 1
+    for st in fn.body:
+        if isinstance(st, ast.Assign) and len(st.targets) == 1 and isinstance(st.targets[0], ast.Name) and counts.get(st.targets[0].id) == 1 \
+                and _norm.is_pure(st.value) and not any(isinstance(k, ast.Call) and u(k.func) not in ("len",) for k in ast.walk(st.value)):
+            v = _norm._Subst(dict(stable)).visit(copy.deepcopy(st.value))
+            if all(k.id == sname or k.id in ("len",) for k in ast.walk(v) if isinstance(k, ast.Name)):
+                stable[st.targets[0].id] = v
+    if stable:
+        for st in fn.body:
+            if isinstance(st, (ast.For, ast.While)):
+                st.body = [ast.fix_missing_locations(_norm._Subst(dict(stable)).visit(x)) for x in st.body]
+                if isinstance(st, ast.For):
+                    st.iter = _norm._Subst(dict(stable)).visit(st.iter)
     bodies = {}
     for attr_name, effect in (("nodes", ("_add_node", "add_node")), ("edges", ("add_link",))):
         loops = _loops_over(fn, attr_name)
@@ -489,6 +511,9 @@ def r4_r5_r7_load(ctx, R4="C02.R4", R5="C02.R5", R7="C02.R7") -> None:
             ok_par = ok_par and bool(is_root) and par_arg is not None and u(par_arg) == want_par
         # metadata: the entry at this node's own position (or empty)
         f_meta = u(meta_arg)
+        # (the document is only read while loading: the table read before the loop is the table read inside it)
+        from ..rulekit import unold_ast
+        meta_arg = unold_ast(meta_arg) if meta_arg is not None else None
         subs = [n for n in ast.walk(meta_arg) if isinstance(n, ast.Subscript) and u(n.value) == f"{sname}.metadata"] if meta_arg is not None else []
         if subs:
             seen_meta = True
